@@ -69,11 +69,17 @@ class SQLLiteQueryBuilder(QueryBuilder):
 
             querystring += self._set_sql(ctx)
 
+            update_from = self._from
             if self._joins:
-                self._from.append(self._update_table.as_(self._update_table.get_table_name() + "_"))
+                update_from = update_from + [
+                    self._update_table.as_(self._update_table.get_table_name() + "_")
+                ]
 
-            if self._from:
-                querystring += self._from_sql(ctx)
+            if update_from:
+                from_ctx = ctx.copy(subquery=True, with_alias=True)
+                querystring += " FROM {selectable}".format(
+                    selectable=",".join(clause.get_sql(from_ctx) for clause in update_from)
+                )
             if self._joins:
                 querystring += " " + " ".join(join.get_sql(ctx) for join in self._joins)
 
